@@ -471,9 +471,9 @@ class C01(Property):
     id = "C01"
     title = "flatten() output rebuilds the same element tree through from_flat()"
     proof_module = "Proofs.C01SparseDense"
-    extra_proof_modules = ["Proofs.C01SparseSecond"]
-    level_text = ('Lean 4 theorem `roundtrip_sparse` (= `c01_sparse_full`, stated and proved at full strength): for EVERY well-formed schema — Dict, Schema, Compound, SparseDict (plain and minimum_fields=\'required\'), List pruning or not, Array/MultiValue, JoinedString, every scalar kind, any depth —, every SepSafe separator and every conforming settled element state e (`OkS`: a mapping holds ANY subset of its declared fields in ANY order), from_flat(flatten(e)) rebuilds exactly the tree `prS e`: the documented pruning `pr` (pruning Lists keep the members that still emit a non-empty value, renumbered; non-pruning Lists lose trailing members without a flat representation; Arrays drop empty members when pruning applies) plus the sparse normalisation of KF-C01-d/e written as a function on states — a rebuilt mapping holds the members a fresh one is created with first (minimum_fields), then the other fields some surviving key of the mapping STARTS WITH (`touched`: the startswith of Mapping._set_flat, so a member that emits no surviving pair is absent and an absent field whose name is a prefix of a sibling\'s key is materialised blank), all in declaration order. Without SparseDicts `prS = pr` (`prS_eq_pr`) and this is `roundtrip_pruned`/`roundtrip` (e itself when no pruning applies); `roundtrip_second_flatten`: without SparseDicts a second round trip leaves the flat output unchanged (the tree may still change: [[a],[\'\']] -> [[a],[]] -> [[a]]); `roundtrip_flatten_noprune`, `roundtrip_flatten_sub`: flat-level clauses without SparseDicts; `roundtrip_sparse_second`: with SparseDicts the second trip is again prS once the rebuilt tree conforms; `roundtrip_sparse_second_flat_partial`: WITH SparseDicts, when every scalar kind reads \'\' back as \'\' (blankSettled) and no field name is a prefix of a sibling\'s (prefixFree), a second round trip leaves the flat output unchanged — for every well-formed Compound-free schema (`_partial`: decidable hypotheses compoundFree, arraysScalar; Compounds without SparseDicts are `roundtrip_second_flatten`; the mixed statement `C01_Sparse_Second_Full` is open); `roundtrip_sparse_rebuilt`: the rebuilt tree conforms again (`prS_okS`, under blankSettled), is in normal order (`prS_sparseNormal`, needs only wf) and is stable (`stableS_prS`); `touched_iff`: under prefixFree a field is touched iff its member is present and still emits; `second_trip_needs_blankSettled`, `second_trip_needs_prefixFree`: both extra hypotheses are needed (concrete schema + state whose flat output differs between trip 1 and trip 2). The proofs go through the real breadth-first order, the sloppy startswith of Mapping._set_flat (first-layer confinement `reach_filter`, which unlike C02\'s `confined` holds for SparseDicts too) and the List index recogniser. Model tied to /repo by differential correspondence on states extracted from real elements: the Lean runner returns `prS e` and the decidable hypotheses (`okSB`, proved sound: `roundtrip_sparse_checked`); whenever they hold and the separator is SepSafe the harness demands that the tree the REAL from_flat(flatten(e)) builds equals `prS e`; an independent Python transcription of prS/OkS states the same clause in the oracle. Native leaf values are decided by the Python oracle on every case.')
-    level_note = ("Trusted: Lean kernel + propext/Classical.choice/Quot.sound; hand-written model Flatland/Flat.lean (tied by correspondence, 2.5k/80k cases per run; the theorem's hypotheses hold on ~77% of the generated cases and on ~80% of those whose schema contains a SparseDict — tags thm-sparse-applies*); scalar set(text) and compound texts enter as tables computed from the real classes in isolation (C04/C18); SepSafe is stronger than 'separator not in names' (KF-C01-a) and is decided by the harness (fl.sep_safe), not inside Lean; Since round k3 THEOREMS for Compound-free schemas (prS_sparseNormal for all), still checked at run time by the Lean runner on every case the theorem applies to (flag spec_agrees; for schemas mixing Compounds and SparseDicts the run-time check is all there is): sparseNormal(prS e), and — when every scalar kind reads '' back as '' (blankSettled; false for Boolean(false='no'), KF-C01-h) — OkS(prS e), and — when additionally no field name is a prefix of a sibling's (prefixFree) — flatten(prS(prS e)) = flatten(prS e); both extra hypotheses are needed: without blankSettled a materialised blank Boolean(false='no') member reads back as 'no' on the second trip, without prefixFree the second trip can materialise further blank members (cascade through a materialised blank Dict holding a SparseDict/required; Lean witnesses second_trip_needs_blankSettled / second_trip_needs_prefixFree). Negation witnesses: roundtrip_sparse_fails (identical flat output is false with SparseDicts: member order), unsettled leaf example in Proofs/C01SparseExamples.lean.")
+    extra_proof_modules = ["Proofs.C01SparseSecond", "Proofs.C01SparseSecondCompoundEx"]
+    level_text = ('Lean 4 theorem `roundtrip_sparse` (= `c01_sparse_full`, stated and proved at full strength): for EVERY well-formed schema — Dict, Schema, Compound, SparseDict (plain and minimum_fields=\'required\'), List pruning or not, Array/MultiValue, JoinedString, every scalar kind, any depth —, every SepSafe separator and every conforming settled element state e (`OkS`: a mapping holds ANY subset of its declared fields in ANY order), from_flat(flatten(e)) rebuilds exactly the tree `prS e`: the documented pruning `pr` (pruning Lists keep the members that still emit a non-empty value, renumbered; non-pruning Lists lose trailing members without a flat representation; Arrays drop empty members when pruning applies) plus the sparse normalisation of KF-C01-d/e written as a function on states — a rebuilt mapping holds the members a fresh one is created with first (minimum_fields), then the other fields some surviving key of the mapping STARTS WITH (`touched`: the startswith of Mapping._set_flat, so a member that emits no surviving pair is absent and an absent field whose name is a prefix of a sibling\'s key is materialised blank), all in declaration order. Without SparseDicts `prS = pr` (`prS_eq_pr`) and this is `roundtrip_pruned`/`roundtrip` (e itself when no pruning applies); `roundtrip_second_flatten`: without SparseDicts a second round trip leaves the flat output unchanged (the tree may still change: [[a],[\'\']] -> [[a],[]] -> [[a]]); `roundtrip_flatten_noprune`, `roundtrip_flatten_sub`: flat-level clauses without SparseDicts; `roundtrip_sparse_second`: with SparseDicts the second trip is again prS once the rebuilt tree conforms; `roundtrip_sparse_second_flat_partial`: WITH SparseDicts, when every scalar kind reads \'\' back as \'\' (blankSettled) and no field name is a prefix of a sibling\'s (prefixFree), a second round trip leaves the flat output unchanged — for every well-formed schema, Compounds included (`roundtrip_sparse_second_flat_compound_partial`: decidable hypotheses arraysScalar and compoundsFull — every Compound state holds exactly its declared fields, true of every real Compound and of every rebuilt tree, `compoundsFull_prS`; the Compound-free form `roundtrip_sparse_second_flat_partial` is the corollary; without compoundsFull the statement is false for a contrived `compose`, witness described in NOTES-p4.md, not formalised); `roundtrip_sparse_rebuilt`: the rebuilt tree conforms again (`prS_okS`, under blankSettled), is in normal order (`prS_sparseNormal`, needs only wf) and is stable (`stableS_prS`); `touched_iff`: under prefixFree a field is touched iff its member is present and still emits; `second_trip_needs_blankSettled`, `second_trip_needs_prefixFree`: both extra hypotheses are needed (concrete schema + state whose flat output differs between trip 1 and trip 2). The proofs go through the real breadth-first order, the sloppy startswith of Mapping._set_flat (first-layer confinement `reach_filter`, which unlike C02\'s `confined` holds for SparseDicts too) and the List index recogniser. Model tied to /repo by differential correspondence on states extracted from real elements: the Lean runner returns `prS e` and the decidable hypotheses (`okSB`, proved sound: `roundtrip_sparse_checked`); whenever they hold and the separator is SepSafe the harness demands that the tree the REAL from_flat(flatten(e)) builds equals `prS e`; an independent Python transcription of prS/OkS states the same clause in the oracle. Native leaf values are decided by the Python oracle on every case.')
+    level_note = ("Trusted: Lean kernel + propext/Classical.choice/Quot.sound; hand-written model Flatland/Flat.lean (tied by correspondence, 2.5k/80k cases per run; the theorem's hypotheses hold on ~77% of the generated cases and on ~80% of those whose schema contains a SparseDict — tags thm-sparse-applies*); scalar set(text) and compound texts enter as tables computed from the real classes in isolation (C04/C18); SepSafe is stronger than 'separator not in names' (KF-C01-a) and is decided by the harness (fl.sep_safe), not inside Lean; Since rounds k3/p4 THEOREMS for all schemas whose Compound states are full (prS_sparseNormal for all), still checked at run time by the Lean runner on every case the theorem applies to (flag spec_agrees): sparseNormal(prS e), and — when every scalar kind reads '' back as '' (blankSettled; false for Boolean(false='no'), KF-C01-h) — OkS(prS e), and — when additionally no field name is a prefix of a sibling's (prefixFree) — flatten(prS(prS e)) = flatten(prS e); both extra hypotheses are needed: without blankSettled a materialised blank Boolean(false='no') member reads back as 'no' on the second trip, without prefixFree the second trip can materialise further blank members (cascade through a materialised blank Dict holding a SparseDict/required; Lean witnesses second_trip_needs_blankSettled / second_trip_needs_prefixFree). Negation witnesses: roundtrip_sparse_fails (identical flat output is false with SparseDicts: member order), unsettled leaf example in Proofs/C01SparseExamples.lean.")
     technique = 'Lean 4 proof (structural induction + level-order lemma + confinement) over a hand-written model; differential correspondence; Python oracle'
     theorems = [
         "Flatland.Flat.Proofs.roundtrip_sparse",
@@ -482,6 +482,11 @@ class C01(Property):
         "Flatland.Flat.Proofs.roundtrip_sparse_second",
         "Flatland.Flat.Proofs.roundtrip_sparse_checked",
         "Flatland.Flat.Proofs.roundtrip_sparse_second_flat_partial",
+        "Flatland.Flat.Proofs.roundtrip_sparse_second_flat_compound_partial",
+        "Flatland.Flat.Proofs.flatten_prS_prS_full",
+        "Flatland.Flat.Proofs.compoundsFull_of_compoundFree",
+        "Flatland.Flat.Proofs.compoundsFull_prS",
+        "Flatland.Flat.Proofs.exC_second",
         "Flatland.Flat.Proofs.roundtrip_sparse_rebuilt",
         "Flatland.Flat.Proofs.flatten_prS_prS",
         "Flatland.Flat.Proofs.prS_okS",
